@@ -1,6 +1,7 @@
 import CifModel.Model.Lexer
 import CifModel.Model.Fill
 import CifModel.Model.ScanBuf
+import CifModel.Model.Names
 /-
   CifModel.Model.BufScan — the scanner of src/parser.c AT BUFFER LEVEL: next_token, scan_ws, scan_to_ws, scan_to_eol,
   scan_unquoted, scan_delim_string, scan_triple_delim_string, scan_text and the macros NEXT_CHAR / PEEK_CHAR (ENSURE_CHARS) /
@@ -357,6 +358,20 @@ def tokLoopB (dia : Dialect) (mf : Nat) : Nat → BS → Bool → TokType → L 
 def nextTokenB (dia : Dialect) (mf : Nat) (s : BS) : L BS :=
   tokLoopB dia mf (fuelOf s) s (afterWsOf s.ttype) s.ttype
 
+/-! ### what the grammar productions do to a pending token -/
+
+/-- "recover by pushing back the colon" (parse_item / parse_list / parse_table on a KEY or TKEY):
+    `next_char -= 1; POSN_INCCOLUMN(-1); ttype = alt` -/
+def pushColonB (s : BS) (alt : TokType) : BS := { backUp s with ttype := alt }
+
+/-- `TRIM_TOKEN(scanner, n)` followed by `ttype = ty` (parse_table on an unquoted value that begins with / contains a colon):
+    `_keep_end = text_start + n`; the column loses `u_countChar32(_keep_end, next_char - _keep_end)`; `next_char = _keep_end`;
+    `TVALUE_SETLENGTH(next_char - TVALUE_START)` -/
+def trimTokenB (s : BS) (n : Nat) (ty : TokType) : BS :=
+  let keepEnd := s.sb.textStart + n
+  let pushed := (s.sb.buffer.drop keepEnd).take (s.sb.next - keepEnd)
+  { s with sb := { s.sb with next := keepEnd }, col := s.col - countChar32 pushed, tvlen := keepEnd - s.sb.tvalueStart, ttype := ty }
+
 /-- the token as the parser sees it after next_token() returned -/
 def BS.tok (s : BS) : Tok := ⟨s.ttype, s.value, s.line, s.col⟩
 
@@ -390,6 +405,36 @@ def tokensLoopB (dia : Dialect) (mf : Nat) (pol : Policy) : Nat → BS → List 
     | .ok s' log' =>
       if s'.ttype = .end_ then ((s'.toRec :: toks).reverse, 0, log')
       else tokensLoopB dia mf pol fuel (consumeToken s') (s'.toRec :: toks) log'
+
+/-- what the correspondence run lets the "parser" do to a token before CONSUME_TOKEN: `trim` = TRIM_TOKEN(scanner, 1) + `ttype = KEY`
+    on every VALUE token longer than one unit (parse_table's recovery for a value that begins with a colon); `colon` = push the
+    colon of every KEY / TKEY back and re-type the token QVALUE / TVALUE (parse_list's / parse_item's recovery) -/
+structure Ops where
+  trim : Bool
+  colon : Bool
+deriving Repr, DecidableEq
+
+def altOfB (ty : TokType) : TokType := if ty = .tkey then .tvalue else .qvalue
+
+/-- `tokensLoopB` with the token manipulations `ops`; the manipulated token is recorded a second time -/
+def tokensLoopOpsB (dia : Dialect) (mf : Nat) (pol : Policy) (ops : Ops) : Nat → BS → List Rec → List Report → List Rec × Int × List Report
+  | 0, _, toks, log => (toks.reverse, 0, log)
+  | fuel + 1, s, toks, log =>
+    match nextTokenB dia mf s pol log with
+    | .abort rv log' => (toks.reverse, rv, log')
+    | .ok s' log' =>
+      if s'.ttype = .end_ then ((s'.toRec :: toks).reverse, 0, log')
+      else if ops.trim = true ∧ s'.ttype = .value ∧ s'.tvlen > 1 then
+        let s2 := trimTokenB s' 1 .key
+        tokensLoopOpsB dia mf pol ops fuel (consumeToken s2) (s2.toRec :: s'.toRec :: toks) log'
+      else if ops.colon = true ∧ (s'.ttype = .key ∨ s'.ttype = .tkey) then
+        let s2 := pushColonB s' (altOfB s'.ttype)
+        tokensLoopOpsB dia mf pol ops fuel (consumeToken s2) (s2.toRec :: s'.toRec :: toks) log'
+      else tokensLoopOpsB dia mf pol ops fuel (consumeToken s') (s'.toRec :: toks) log'
+
+def tokenizeOpsB (dia : Dialect) (mf size : Nat) (pol : Policy) (ops : Ops) (fuel : Nat) (chunks : List Str) : List Rec × Int × List Report :=
+  let r := tokensLoopOpsB dia mf pol ops fuel (BS.init size ⟨chunks⟩) [] []
+  (r.1, r.2.1, r.2.2.reverse)
 
 /-- the token stream of the input delivered as `chunks` through a scan buffer of initially `size` units -/
 def tokenizeB (dia : Dialect) (mf size : Nat) (pol : Policy) (chunks : List Str) : List Rec × Int × List Report :=
